@@ -16,6 +16,7 @@ package proto
 
 import (
 	"bytes"
+	"io"
 	"strconv"
 )
 
@@ -54,6 +55,9 @@ func newArrayWithParser(parser *Parser) (*Array, error) {
 		msg, err := parser.Next()
 		if err != nil {
 			return nil, err
+		}
+		if msg == nil {
+			return nil, io.ErrUnexpectedEOF
 		}
 		msgs[n] = msg
 	}
